@@ -91,6 +91,10 @@ def ulp_neighbours(x):
 
 def double_pool(T, rng):
     pool = [NAN, NAN2, PINF, NINF, PZERO, NZERO, 1, (1 << 63) | 1, 0x7fefffffffffffff, 0xffefffffffffffff]
+    # ordinary doubles whose wire bytes contain the end flag / the start flag (1.0000006.., 0.50000002..):
+    # a payload may contain them, framing goes by the declared length only
+    pool += [0x3ff00000a1fccfd1, 0x3fe000001dfccf1a, 0x3ff00000a1fccfd1, 0x3fe000001dfccf1a,
+             0xa1fccfd13ff00000 & (2 ** 64 - 1)]
     for name in ('AZ', 'EL'):
         c = T[name]
         for v in (c['min_pos'], c['max_pos'], c['start_pos'], c['max_velocity'], -c['max_velocity'],
